@@ -215,18 +215,27 @@ Section Provenance.
     eapply layer_transformers; eauto.
   Qed.
 
-  Lemma hash_prov prov : forall hs m m',
-    Forall2 came_from prov m -> hash_transform cs nonstr hs m = Ok m' ->
+  Lemma hash_renames_prov prov : forall hs m m',
+    Forall2 came_from prov m -> hash_renames cs nonstr hs m = Ok m' ->
     Forall2 came_from (prov_hash prov hs) m'.
   Proof.
     induction prov as [|p prov IH]; intros hs m m' HF Hh.
-    - inversion HF; subst. destruct hs; cbn [hash_transform] in Hh; inv Hh; constructor.
+    - inversion HF; subst. destruct hs; cbn [hash_renames] in Hh; inv Hh; constructor.
     - inversion HF as [|p0 y prov0 l' Hpy Hrest]; subst.
-      destruct hs as [|h hs]; cbn [hash_transform] in Hh; [discriminate|].
+      destruct hs as [|h hs]; cbn [hash_renames] in Hh; [discriminate|].
       destruct (hash_one cs nonstr h y) as [r'| | |] eqn:E; cbn [bind] in Hh; try discriminate.
-      destruct (hash_transform cs nonstr hs l') as [t'| | |] eqn:Et; cbn [bind] in Hh; try discriminate. inv Hh.
+      destruct (hash_renames cs nonstr hs l') as [t'| | |] eqn:Et; cbn [bind] in Hh; try discriminate. inv Hh.
       cbn [prov_hash]. constructor; [|eapply IH; eauto].
       unfold came_from in *. cbn [fst snd]. eapply steps_snoc; eauto.
+  Qed.
+
+  Lemma hash_prov prov hs m m' :
+    Forall2 came_from prov m -> hash_transform cs nonstr hs m = Ok m' ->
+    Forall2 came_from (prov_hash prov hs) m'.
+  Proof.
+    intros HF Hh. unfold hash_transform in Hh.
+    destruct (hash_renames cs nonstr hs m) as [m1| | |] eqn:E; cbn [bind] in Hh; try discriminate.
+    destruct (hash_ids_distinct cs m1); inv Hh. eapply hash_renames_prov; eauto.
   Qed.
 
   (* makeCustomizedResMap up to FixBackReferences *)
